@@ -325,7 +325,7 @@ impl Extensions {
                     None
                 }
             }),
-            Id::new(16_777_216, "Reroute all CORS requests to /./cors_fail"),
+            Id::new(-16_777_215, "Reroute all CORS requests to /./cors_fail"),
         );
 
         self.add_prepare_single(
@@ -353,7 +353,7 @@ impl Extensions {
                     None
                 }
             }),
-            Id::new(16_777_215, "Provides CORS preflight request support"),
+            Id::new(-16_777_216, "Provides CORS preflight request support"),
         );
         self
     }
@@ -367,8 +367,10 @@ impl Extensions {
         self.add_prepare_single("/./cors_options", options_prepare(options_cors_settings));
         let package_cors_settings = Arc::clone(&cors_settings);
 
-        // This priority have to be higher than the one in the [`Self::add_disallow_cors`]'s prime
-        // extension.
+        // This priority has to be the same as the one in the [`Self::with_disallow_cors`]'s prime
+        // extension, to replace it.
+        // It's low so this runs after the other prime extensions, and so sees the same URI as
+        // the package extension below.
         self.add_prime(
             prime!(request, _, _, move |cors_settings: Arc<Cors>| {
                 let allow = cors_settings.check_cors_request(request);
@@ -379,7 +381,7 @@ impl Extensions {
                 }
             }),
             Id::new(
-                16_777_216,
+                -16_777_215,
                 "Reroute not allowed CORS request to /./cors_fail",
             ),
         );
